@@ -45,9 +45,9 @@ pub fn sub(seed: u64) -> Program {
     let mut gates = 0;
     let mut threads: Vec<Vec<Op>> = vec![vec![]];
     // producers
-    let nprod = g.rng.range(1, 2) as usize;
+    let nprod = g.rng.range(1, 1 + g.scale) as usize;
     for _ in 0..nprod {
-        let n = g.rng.range(2, 6) as usize;
+        let n = g.rng.range(2, 6 * g.scale) as usize;
         let mut ops = vec![];
         for _ in 0..n {
             let a = g.plain_act(&reds, 0);
@@ -63,7 +63,7 @@ pub fn sub(seed: u64) -> Program {
     }
     let nprod_threads = threads.len();
     // other subscribers
-    let nsub = g.rng.range(1, 3) as usize;
+    let nsub = g.rng.range(1, 2 + g.scale) as usize;
     let mut late_ops: Vec<(usize, Op)> = vec![];
     let mut stalled_lossy = false;
     for _ in 0..nsub {
@@ -201,7 +201,7 @@ pub fn api(seed: u64) -> Program {
     let mut extra_threads: Vec<Vec<Op>> = vec![];
     let mut next_tag = 50u32;
     for _ in 0..nthreads {
-        let nops = g.rng.range(1, 5) as usize;
+        let nops = g.rng.range(1, 5 * g.scale) as usize;
         let mut ops: Vec<Op> = vec![];
         let mut my_regs: Vec<usize> = vec![];
         for _ in 0..nops {
@@ -462,9 +462,9 @@ pub fn two(seed: u64) -> Program {
         regs = 4;
     }
     let mut threads: Vec<Vec<Op>> = vec![vec![]];
-    let nprod = g.rng.range(1, 3) as usize;
+    let nprod = g.rng.range(1, 2 + g.scale) as usize;
     for _ in 0..nprod {
-        let n = g.rng.range(2, 6) as usize;
+        let n = g.rng.range(2, 6 * g.scale) as usize;
         let mut ops = vec![];
         for _ in 0..n {
             let s = g.rng.below(2) as usize;
